@@ -11,7 +11,7 @@ for src_letter, letter in (("A", la), ("B", lb)):
         print(prop, src_letter, "no patch"); continue
     cr = crate
     notes = open(src + "/notes.md").read() if os.path.exists(src + "/notes.md") else ""
-    m = re.search(r"`(dom|xpath|info|parser|nom)/tests/?`", notes)
+    m = re.search(r"`(dom|xpath|info|parser|nom)/tests/?(?:[a-z_]+\.rs)?`", notes)
     if m:
         cr = m.group(1)
     out = subprocess.run(["/verif/tools/seed_verify.sh", "/tmp/seed/%s" % prop, src, cr], capture_output=True, text=True).stdout.strip().split("\n")[-1]
